@@ -425,6 +425,16 @@ func (d *dumper) instr(in ssa.Instruction) jInstr {
 		ji["op"] = "RunDefers"
 	case *ssa.Select:
 		ji["op"] = "Select"
+		ji["blocking"] = x.Blocking
+		sts := []jVal{}
+		for _, st := range x.States {
+			dir := "recv"
+			if st.Dir == types.SendOnly {
+				dir = "send"
+			}
+			sts = append(sts, jVal{"dir": dir, "chan": d.val(st.Chan), "send": d.val(st.Send)})
+		}
+		ji["states"] = sts
 	case *ssa.Send:
 		ji["op"] = "Send"
 		ji["chan"] = d.val(x.Chan)
